@@ -34,6 +34,7 @@ class Parser:
         self.the_environments = {}
         self.mathparser = mathparser.MathParser(self)
         self.unknowns = []
+        self.extracted = []
         self.latex = ''
 
         # used by expand_item():
@@ -511,8 +512,14 @@ class Parser:
 
     #   generate string from token sequence, with macro expansion
     #
+    #   - this is only a trial expansion for getting the text: arguments of
+    #     macros like \footnote must not be extracted here, the caller
+    #     may still pass the tokens to the "real" expansion
+    #
     def get_text_expanded(self, toks):
+        extracted = self.extracted.copy()
         toks = self.expand_sequence(scanner.Buffer(toks.copy()))
+        self.extracted = extracted
         return self.get_text_direct(toks)
 
     #   remove all blank text lines, which contain at least one ActionToken
